@@ -55,26 +55,26 @@ Lemma scall_is_spec_l : forall m s args r, sspec m s args = Some r -> scall m s 
 Proof.
   intros m s args r H. destruct m; cbn [sspec] in H.
   - (* length *) exact H.
-  - (* indexOf *) destruct args as [|[| | |x|] t]; try discriminate. exact H.
+  - (* indexOf *) destruct args as [|[| | |x| |] t]; try discriminate. exact H.
   - (* substring *)
-    destruct args as [|[| |a| |] [|[| |b| |] [|? ?]]]; try discriminate;
+    destruct args as [|[| |a| | |] [|[| |b| | |] [|? ?]]]; try discriminate;
       injection H as <-; unfold scall.
     + rewrite (m_substring_spec s a None) by reflexivity. reflexivity.
     + rewrite (m_substring_spec s a None) by reflexivity. reflexivity.
     + rewrite (m_substring_spec s a (Some b)) by reflexivity. reflexivity.
   - (* replace *)
-    destruct args as [|[| | |x|] [|[| | |y|] t]]; try discriminate.
+    destruct args as [|[| | |x| |] [|[| | |y| |] t]]; try discriminate.
     destruct x as [|c x']; [discriminate|]. exact H.
   - (* split *)
-    destruct args as [|[| | |x|] t]; try discriminate.
+    destruct args as [|[| | |x| |] t]; try discriminate.
     + exact H.
     + destruct t; [exact H|discriminate].
     + destruct x as [|c x']; [discriminate|]. exact H.
   - (* trim *) exact H.
   - (* upper *) exact H.
   - (* lower *) exact H.
-  - destruct args as [|[| | |x|] t]; try discriminate. exact H.
-  - destruct args as [|[| | |x|] t]; try discriminate. exact H.
+  - destruct args as [|[| | |x| |] t]; try discriminate. exact H.
+  - destruct args as [|[| | |x| |] t]; try discriminate. exact H.
 Qed.
 
 (* the string receiver is immutable: the model never returns a changed receiver (the methods
